@@ -46,6 +46,26 @@ pub trait Hooks: Send + Sync + 'static {
     fn sleep(&self, rate: Duration) {
         std::thread::sleep(rate)
     }
+
+    /// The current thread waits on the condition variable `cond` (its mutex is already
+    /// released). Returns when the thread has been notified and may go on.
+    fn cond_wait(&self, _cond: usize) {
+        std::thread::yield_now()
+    }
+
+    /// One waiter of the condition variable `cond` is notified.
+    fn cond_notify(&self, _cond: usize) {}
+
+    /// The current thread is about to spawn a thread. Returns a token for the new thread.
+    fn thread_create(&self) -> usize {
+        usize::MAX
+    }
+
+    /// First thing a spawned thread does. Returns when it may run.
+    fn thread_start(&self, _token: usize) {}
+
+    /// Last thing a spawned thread does.
+    fn thread_end(&self, _token: usize) {}
 }
 
 static HOOKS: RwLock<Option<Arc<dyn Hooks>>> = RwLock::new(None);
@@ -92,6 +112,7 @@ pub struct Mutex<T> {
 #[cfg(feature = "parking_lot")]
 pub struct MutexGuard<'a, T> {
     guard: Option<parking_lot::MutexGuard<'a, T>>,
+    mutex: &'a Mutex<T>,
     id: usize,
     hooks: Option<Arc<dyn Hooks>>,
 }
@@ -111,6 +132,7 @@ impl<T> Mutex<T> {
         match hooks() {
             None => MutexGuard {
                 guard: Some(self.inner.lock()),
+                mutex: self,
                 id,
                 hooks: None,
             },
@@ -120,6 +142,7 @@ impl<T> Mutex<T> {
                     h.acquired(id);
                     return MutexGuard {
                         guard: Some(guard),
+                        mutex: self,
                         id,
                         hooks: Some(h),
                     };
@@ -152,6 +175,112 @@ impl<T> Drop for MutexGuard<'_, T> {
         self.guard = None;
         if let Some(h) = self.hooks.take() {
             h.released(self.id);
+        }
+    }
+}
+
+#[cfg(feature = "parking_lot")]
+impl<T: fmt::Debug> fmt::Debug for Mutex<T> {
+    fn fmt(&self, f: &mut fmt::Formatter<'_>) -> fmt::Result {
+        fmt::Debug::fmt(&self.inner, f)
+    }
+}
+
+#[cfg(feature = "parking_lot")]
+impl fmt::Debug for Condvar {
+    fn fmt(&self, f: &mut fmt::Formatter<'_>) -> fmt::Result {
+        fmt::Debug::fmt(&self.inner, f)
+    }
+}
+
+/// Drop-in replacement for `parking_lot::Condvar` (only `wait` and `notify_one` are used by the
+/// crate) that reports to the hooks.
+#[cfg(feature = "parking_lot")]
+pub struct Condvar {
+    inner: parking_lot::Condvar,
+}
+
+#[cfg(feature = "parking_lot")]
+impl Default for Condvar {
+    fn default() -> Condvar {
+        Condvar::new()
+    }
+}
+
+#[cfg(feature = "parking_lot")]
+impl Condvar {
+    /// Creates a new condition variable.
+    pub fn new() -> Condvar {
+        Condvar {
+            inner: parking_lot::Condvar::new(),
+        }
+    }
+
+    /// Blocks until notified; the mutex is released while waiting.
+    pub fn wait<T>(&self, guard: &mut MutexGuard<'_, T>) {
+        match guard.hooks.clone() {
+            None => self.inner.wait(guard.guard.as_mut().unwrap()),
+            Some(h) => {
+                let cond = self as *const Condvar as *const u8 as usize;
+                // release the mutex, wait for the notification, take the mutex again - each of
+                // the three under the eyes of the hooks
+                guard.guard = None;
+                h.released(guard.id);
+                h.cond_wait(cond);
+                loop {
+                    h.point("lock", guard.id);
+                    if let Some(inner) = guard.mutex.inner.try_lock() {
+                        h.acquired(guard.id);
+                        guard.guard = Some(inner);
+                        return;
+                    }
+                    h.blocked(guard.id);
+                }
+            }
+        }
+    }
+
+    /// Wakes up one waiting thread.
+    pub fn notify_one(&self) {
+        match hooks() {
+            None => {
+                self.inner.notify_one();
+            }
+            Some(h) => {
+                h.cond_notify(self as *const Condvar as *const u8 as usize);
+                self.inner.notify_one();
+            }
+        }
+    }
+}
+
+/// Stands in for `std` in code that spawns threads (`use crate::verif::std_shim as std;`):
+/// everything is `std`'s, except that `thread::spawn` reports to the hooks.
+pub mod std_shim {
+    pub use ::std::*;
+
+    /// `std::thread` with a `spawn` that reports to the hooks.
+    pub mod thread {
+        pub use ::std::thread::*;
+
+        /// Spawns a thread; the hooks learn about it before it exists and decide when it runs.
+        pub fn spawn<F, T>(f: F) -> ::std::thread::JoinHandle<T>
+        where
+            F: FnOnce() -> T + Send + 'static,
+            T: Send + 'static,
+        {
+            match crate::verif::hooks() {
+                None => ::std::thread::spawn(f),
+                Some(h) => {
+                    let token = h.thread_create();
+                    ::std::thread::spawn(move || {
+                        h.thread_start(token);
+                        let result = f();
+                        h.thread_end(token);
+                        result
+                    })
+                }
+            }
         }
     }
 }
